@@ -1,6 +1,7 @@
 import XMT.Drv.Util
 import XMT.Group
 import XMT.Drv.C19
+import XMT.HostBox
 namespace XMT.Drv.C17
 open XMT XMT.Group XMT.Drv
 
@@ -126,6 +127,26 @@ def handle (args : List String) : String :=
     | _, _ => "bad-op"
   -- the consumer (Session.listen): the client-loop model of C19 (XMT/ClientLoop.lean)
   | "loop" :: rest => XMT.Drv.C19.handle ("loop" :: rest)
+  -- the host container of the `ews && implant` build (XMT/HostBox.lean): `hb <op>…` with ops
+  -- `s:<hex>` Set, `w:<hex16>` Wrap with the given PRNG bytes, `u` Unwrap, `g` String()
+  | "hb" :: ops =>
+    let rec go (c : XMT.HostBox.Box) (ops : List String) (acc : List String) : Option (List String) :=
+      match ops with
+      | [] => some acc.reverse
+      | o :: rest =>
+        if o = "u" then go (XMT.HostBox.unwrap c) rest acc
+        else if o = "g" then go c rest (hexOrDash (XMT.HostBox.string c) :: acc)
+        else match splitOn1 o ':' with
+          | ["s", h] => match ofHex h with
+            | some b => go (XMT.HostBox.set c b) rest acc
+            | none => none
+          | ["w", h] => match ofHex h with
+            | some b => if b.length = XMT.HostBox.keyLen then go (XMT.HostBox.wrap c b) rest acc else none
+            | none => none
+          | _ => none
+    match go XMT.HostBox.empty ops [] with
+    | some outs => if outs.isEmpty then "." else " ".intercalate outs
+    | none => "bad-op"
   | _ => "bad-op"
 
 end XMT.Drv.C17
